@@ -463,9 +463,17 @@ func (api *HTTP) session(r *http.Request, sessionId string) (robust.Id, error) {
 
 func (api *HTTP) sessionOrProxy(w http.ResponseWriter, r *http.Request, sessionId string) (robust.Id, error) {
 	sessionid, err := api.session(r, sessionId)
-	if err == ircserver.ErrSessionNotYetSeen && api.raftNode.State() != raft.Leader {
-		// The session might exist on the leader, so we must proxy.
-		api.maybeProxyToLeader(w, r, r.Body)
+	if err == ircserver.ErrSessionNotYetSeen {
+		if api.raftNode.State() != raft.Leader {
+			// The session might exist on the leader, so we must proxy.
+			api.maybeProxyToLeader(w, r, r.Body)
+			return sessionid, err
+		}
+		// A leader which was elected a moment ago might not have applied all
+		// committed messages yet, so it cannot tell either whether the session
+		// exists. Like handleGetMessages, make the client retry instead of
+		// telling it that its session is gone.
+		http.Error(w, err.Error(), http.StatusInternalServerError)
 		return sessionid, err
 	}
 
